@@ -19,7 +19,7 @@ CLICKS = [(0.1, 0.25), (0.25, 0.1), (1.0, 1.0)]
 UNITS = ['Mil', 'MOA', 'MRad', 'Degree', 'InchesPer100Yd', 'CmPer100m']
 CALS = [('Meter', 100.0), ('Yard', 100.0), ('Meter', 50.0)]
 TDS = [('Meter', 50.0), ('Yard', 100.0), ('Foot', 250.0), ('Meter', 1000.0), ('Meter', 100.0)]
-MAGS = [1.0, 2.5, 10.0]
+MAGS = [1.0, 2.5, 10.0, 0.5]      # 0.5: below 1x (wide-angle setting of a thermal sight)
 CORR = [0.3, -0.3, 1.0, -1.0, 7.7, -7.7]   # mil
 
 
@@ -144,6 +144,6 @@ PARTS = {'sight': sight, 'reject': reject}
 
 def plan(tier):
     tds = TDS if tier == 'thorough' else TDS[:4]
-    mags = MAGS if tier == 'quick' else MAGS + [0.5, 25.0]
+    mags = MAGS if tier == 'quick' else MAGS + [0.25, 25.0]
     cells = [list(c) for c in itertools.product(['FFP', 'SFP', 'LWIR'], CLICKS, UNITS, CALS, tds, mags)]
     return [('sight', cells), ('reject', REJECTS)]
